@@ -31,6 +31,8 @@
  *   READLOADBASIS <h> <file>    mpq_QSread_and_load_basis
  *   BOPT <h> <cstat> <rstat>    QSexact_basis_optimalstatus
  *   PRINTSOL <h> <file>         QSexact_print_sol
+ *   SOLUTION <h>                "SOLUTION <rv> <status> <value|->" ; "SX .." ; "SRC .." ; "SPI .." ; "SSLACK .." (query API, after a solve)
+ *   DUMPILP <h>                 internal form (common.h qsx_dump_ilp)
  *   CAT <file>                  "CAT <nbytes>" then "L <enc line>"*  (decompressing through EGio when .gz/.bz2)
  *   PUT <file> <enc>            write the decoded bytes to file (plain)
  *   FREE <h>
@@ -625,6 +627,32 @@ int main (int argc, char **argv)
 				int rv = f ? QSexact_print_sol (P, f) : -1;
 				if (f) EGioClose (f);
 				printf ("PRINTSOL %d\n", rv);
+			}
+			else if (!strcmp (op, "SOLUTION"))
+			{
+				int n = mpq_QSget_colcount (P), m = mpq_QSget_rowcount (P), rv, st = -1, r2;
+				mpq_t v, *x = mpq_EGlpNumAllocArray (n + 1), *pi = mpq_EGlpNumAllocArray (m + 1),
+					*rc = mpq_EGlpNumAllocArray (n + 1), *sl = mpq_EGlpNumAllocArray (m + 1);
+				mpq_init (v);
+				rv = mpq_QSget_status (P, &st);
+				r2 = mpq_QSget_objval (P, &v);
+				printf ("SOLUTION %d %d ", rv, st);
+				if (!r2) qsx_print_q (stdout, v); else putchar ('-');
+				putchar ('\n');
+				rv = mpq_QSget_x_array (P, x);
+				printf ("SX %d", rv); if (!rv) qsx_print_qarr (stdout, x, n); putchar ('\n');
+				rv = mpq_QSget_rc_array (P, rc);
+				printf ("SRC %d", rv); if (!rv) qsx_print_qarr (stdout, rc, n); putchar ('\n');
+				rv = mpq_QSget_pi_array (P, pi);
+				printf ("SPI %d", rv); if (!rv) qsx_print_qarr (stdout, pi, m); putchar ('\n');
+				rv = mpq_QSget_slack_array (P, sl);
+				printf ("SSLACK %d", rv); if (!rv) qsx_print_qarr (stdout, sl, m); putchar ('\n');
+				mpq_clear (v);
+				mpq_EGlpNumFreeArray (x); mpq_EGlpNumFreeArray (pi); mpq_EGlpNumFreeArray (rc); mpq_EGlpNumFreeArray (sl);
+			}
+			else if (!strcmp (op, "DUMPILP"))
+			{
+				qsx_dump_ilp (stdout, P);
 			}
 			else if (!strcmp (op, "FREE"))
 			{
